@@ -46,7 +46,7 @@ def err_class(exc, expect_name=None) -> str:
 class NoiseSession:
     """One client helper + one device, frames materialised on demand."""
 
-    def __init__(self, rng: random.Random, dev_name, exp_name, loop=None, hp: int = 0):
+    def __init__(self, rng: random.Random, dev_name, exp_name, loop=None, hp: int = 0, mac: bool = False):
         from aioesphomeapi._frame_helper.noise import APINoiseFrameHelper
 
         self.rng = rng
@@ -69,6 +69,7 @@ class NoiseSession:
         bodies = self.device.feed_client_bytes(self.hello_write)
         self.client_bodies = bodies
         self.hp = hp
+        self.mac = mac
         self.hs_good = self.device.handshake_reply(bodies[1], rng.randbytes(hp)) if len(bodies) == 2 else None
         self.other_key = rng.randbytes(32)
         self.msgs: dict[int, tuple[int, bytes]] = {}
@@ -108,6 +109,10 @@ class NoiseSession:
                 body = bytes((f["proto"],))
                 if f["name"] != "none":
                     body += f["name"].encode() + b"\x00"
+                    if self.mac and len(body) < f["blen"]:
+                        from vf.props.noise_common import MAC_EXT
+
+                        body += MAC_EXT
         elif k == "hs":
             if f["key"] == "bad":
                 body = b"\x00" + self.foreign_handshake()
